@@ -682,6 +682,7 @@ func c05Controls() []core.Mutant {
 		{Name: "constant pool guard after conversion is too lax", File: "compiler/compiler.go", Old: "if len(c.constants) > math.MaxUint16 {", New: "if len(c.constants) > math.MaxUint16+2 {", Rule: "R5.4", Construct: "makeConstant"},
 		{Name: "makeConstant returns the pool length", File: "compiler/compiler.go", Old: "p := uint16(len(c.constants) - 1)", New: "p := uint16(len(c.constants))", Rule: "R5.8", Construct: "returns the index"},
 		{Name: "JumpBackward handler adds", File: "vm/vm.go", Old: "vm.ip -= int(offset)", New: "vm.ip += int(offset)", Rule: "", Construct: "OpJumpBackward"},
+		{Name: "peephole truncates the instruction stream", File: "compiler/compiler.go", Old: "\tcase \"!\", \"not\":\n\t\tc.emit(OpNot)\n", New: "\tcase \"!\", \"not\":\n\t\tif n := len(c.bytecode); n > 0 && c.bytecode[n-1] == OpNot {\n\t\t\tc.bytecode = c.bytecode[:n-1]\n\t\t} else {\n\t\t\tc.emit(OpNot)\n\t\t}\n", Rule: "", Construct: "UnaryNode"},
 		{Name: "scope stack no longer emptied at the start of a run", File: "vm/vm.go", Old: "\tif vm.scopes != nil {\n\t\tvm.scopes = vm.scopes[0:0]\n\t}\n", New: "", Rule: "R5.9", Construct: "scopes empty"},
 		{Name: "evaluation stack keeps its last element at the start of a run", File: "vm/vm.go", Old: "vm.stack = vm.stack[0:0]", New: "vm.stack = vm.stack[0:1]", Rule: "R5.9", Construct: "stack empty"},
 		{Name: "refactor: extract emitBinary", File: "compiler/compiler.go", Old: "\tcase \"<\":\n\t\tc.compile(node.Left)\n\t\tc.compile(node.Right)\n\t\tc.emit(OpLess)\n", New: "\tcase \"<\":\n\t\tc.emitBinary(node, OpLess)\n", Edits: [][2]string{{"func (c *compiler) MatchesNode(", "func (c *compiler) emitBinary(node *ast.BinaryNode, op byte) {\n\tc.compile(node.Left)\n\tc.compile(node.Right)\n\tc.emit(op)\n}\n\nfunc (c *compiler) MatchesNode("}}, Silent: true},
